@@ -14,22 +14,8 @@ partial def dvalOfJson (j : Json) : Except String DVal := do
   let elems ← (← jArr (jFieldD j "elems" (Json.arr #[]))).toList.mapM dvalOfJson
   return .mk (← jNat (← jField j "vid")) (← jNat (← jField j "cls")) (← jNat (← jField j "eq")) kind elems
 
-def triOfStr (s : String) : Tri := if s == "y" then .yes else if s == "n" then .no else .raises
-
-/-- `"meta": [tag per class]`, `"chk": [[fn, [params|null], vid, "y"|"n"|"r"], ...]` -/
 def dworldOfJson (j : Json) : Except String DWorld := do
-  let H ← hierOfJson (← jField j "hier")
-  let metas ← (← jArr (jFieldD j "meta" (Json.arr #[]))).toList.mapM jNat
-  let rows ← (← jArr (jFieldD j "chk" (Json.arr #[]))).toList.mapM (fun r => do
-    let a ← jArr r
-    let ps ← (← jArr a[1]!).toList.mapM (fun p => if p.isNull then pure none else some <$> jNat p)
-    return ((← jNat a[0]!, ps, ← jNat a[2]!), triOfStr (← jStr a[3]!)))
-  return {
-    H := H,
-    metaOf := fun c => metas[c]?.getD 0,
-    chk := fun fn ps vid => match rows.find? (fun r => r.1 == (fn, ps, vid)) with
-      | some r => r.2
-      | none => .raises }
+  return (← cfgOfJson j).dworld
 
 def dhandlerOfJson (j : Json) : Except String DHandler := do
   return (← jNat (← jField j "id"), ← (← jArr (← jField j "types")).toList.mapM slotTyOfJson)
